@@ -1,8 +1,73 @@
-//! C04 — not built yet (stub).
+//! C04 — scoping: innermost binding wins, assignments persist, caller data untouched.
+//!
+//! non-trivial rule: the program contains at least one binding statement (assign, capture,
+//! increment, decrement, for, include) — every generated program does except the empty one.
+use super::common::{run_case, Case, PSrc};
 use crate::ctx::Ctx;
+use crate::gen::ast::Node;
+use crate::gen::scope::{c04_data, c04_partials, expand, forests, probe, random_forest, ScopeGen, ScopeOpts};
+use crate::val::{s, RVal};
 
-pub fn run(_ctx: &mut Ctx) {}
+pub fn run(ctx: &mut Ctx) {
+    ctx.start_watchdog(180);
+    let partials: Vec<(String, PSrc)> = c04_partials().into_iter().map(|(n, b)| (n, PSrc::Ast(b))).collect();
+    let data = c04_data();
+    let max_exhaustive = ctx.scale(3usize, 4usize);
+    let mut memo = Vec::new();
+    for n in 0..=max_exhaustive {
+        let fs = forests(n, &mut memo);
+        ctx.extra.insert(format!("programs_with_{n}_binding_statements"), serde_json::json!(fs.len()));
+        for f in fs {
+            let mut main = probe();
+            main.extend(expand(&f));
+            let c = Case { main: &main, partials: &partials, data: &data, family: "exhaustive-binding-programs", strip_newlines: false, style_seed: n as u64 };
+            run_case(ctx, &c, n > 0);
+        }
+    }
+    // a seeded sample of the next sizes
+    let take = ctx.scale(20_000usize, 200_000usize);
+    let mut rng = ctx.rng("c04-sample");
+    for i in 0..take {
+        let f = random_forest(&mut rng, max_exhaustive + 1 + i % 2);
+        let mut main = probe();
+        main.extend(expand(&f));
+        let c = Case { main: &main, partials: &partials, data: &data, family: "sampled-larger-sizes", strip_newlines: false, style_seed: 7 };
+        run_case(ctx, &c, true);
+    }
+    // random programs up to 14 statements, nesting to depth 4, richer partials
+    let n = ctx.scale(20_000u64, 400_000u64);
+    let rng = ctx.rng("c04-random");
+    for i in 0..n {
+        let mut r = rng.fork(i);
+        let o = ScopeOpts { callable: vec![], allow_render: false, allow_cycle_ifchanged: false, allow_interrupts_at_top: false, max_depth: 1, dynamic_names: false };
+        // partial bodies first (they may not call anything)
+        let p1 = {
+            let mut g = ScopeGen { rng: &mut r, o: o.clone() };
+            let len = 1 + g.rng.below(3);
+            g.body(0, false, len)
+        };
+        let p2 = {
+            let mut g = ScopeGen { rng: &mut r, o: o.clone() };
+            let len = 1 + g.rng.below(3);
+            g.body(0, false, len)
+        };
+        let parts = vec![("p1".to_string(), PSrc::Ast(p1)), ("p2".to_string(), PSrc::Ast(p2))];
+        let main = {
+            let mut g = ScopeGen { rng: &mut r, o: ScopeOpts { callable: vec!["p1".into(), "p2".into()], max_depth: 4, ..o.clone() } };
+            let len = 1 + g.rng.below(14);
+            g.body(0, false, len)
+        };
+        let data = match r.below(3) {
+            0 => c04_data(),
+            1 => RVal::Object(vec![("c".into(), s("dc")), ("a".into(), RVal::Int(1))]),
+            _ => RVal::Object(vec![]),
+        };
+        let c = Case { main: &main, partials: &parts, data: &data, family: "random-programs", strip_newlines: false, style_seed: r.next() };
+        run_case(ctx, &c, true);
+    }
+    let _: Option<Node> = None;
+}
 
-pub fn replay(_j: &serde_json::Value) -> bool {
-    false
+pub fn replay(j: &serde_json::Value) -> bool {
+    super::common::replay_program(j)
 }
